@@ -169,6 +169,85 @@ theorem step_swap {s : State} {σ : List Tree} (R : Refines s σ) (x : Nat) (px 
     simp only [StepOK, step, Store.step, hd, hd', if_false]
     exact ⟨R, by first | rfl | trivial⟩
 
+theorem step_update {s : State} {σ : List Tree} (R : Refines s σ) (y x : Nat) (i : Int) (a : Atom) :
+    StepOK s σ (.update y x i a) := by
+  by_cases hxy : x < s.cells.length ∧ y < s.cells.length
+  · obtain ⟨hx, hy⟩ := hxy
+    have hd : (declared s x = true ∧ declared s y = true) := by simp [declared, hx, hy]
+    have hd' : (Store.declared σ x = true ∧ Store.declared σ y = true) := by
+      rw [← R.decl, ← R.decl]; exact hd
+    obtain ⟨i1, e1, r1⟩ := evalAtom_spec (s := s) (T := []) (.var x) (by simpa using R.inv) R.sim
+    simp only [evalAtom, Store.evalAtom] at i1 e1 r1
+    have sim1 : All2 (Rep (dup s.h (cellOf s x))) s.cells σ := All2.mono (fun _ _ _ r => r.ext e1) R.sim
+    obtain ⟨i2, e2, r2⟩ := evalAtom_spec (s := s) (h := dup s.h (cellOf s x)) (T := [cellOf s x]) a (by simpa using i1) sim1
+    have sim2 : All2 (Rep (evalAtom s (dup s.h (cellOf s x)) a).1) s.cells σ := All2.mono (fun _ _ _ r => r.ext e2) sim1
+    obtain ⟨S1, S2⟩ := setIndex_spec (F := s.cells) [i]
+      (i2.congr (fun k => by simp [occ_cons, occ_append]; omega)) (r1.ext e2) r2
+    simp only [StepOK, step, Store.step, hd, hd', and_self, if_true, readVar]
+    obtain ⟨w, hw⟩ : ∃ w, setIndex (evalAtom s (dup s.h (cellOf s x)) a).1 (cellOf s x) [i]
+      (evalAtom s (dup s.h (cellOf s x)) a).2 = w := ⟨_, rfl⟩
+    simp only [hw] at S1 S2 ⊢
+    have sim3 : All2 (Rep w.h) s.cells σ := sim_stable (T := []) sim2 (by simpa using S1.stable)
+    cases hsp : setPath (Store.get σ x) [i] (Store.evalAtom σ a) with
+    | none =>
+      rw [hsp] at S2
+      simp only [S2.1]
+      have D := drop_tr (by simpa using S1.inv : Inv w.h (w.v :: s.cells))
+      exact ⟨⟨by simpa using D.inv, sim_stable (T := []) sim3 (by simpa using D.stable)⟩, by first | rfl | trivial⟩
+    | some t' =>
+      rw [hsp] at S2
+      simp only [S2.1, if_true]
+      obtain ⟨i4, s4, _⟩ := writeCell_spec (T := []) hy (by simpa using S1.inv) sim3 S2.2
+      exact ⟨⟨by simpa using i4, s4⟩, by first | rfl | trivial⟩
+  · have hd : ¬ (declared s x = true ∧ declared s y = true) := by simpa [declared] using hxy
+    have hd' : ¬ (Store.declared σ x = true ∧ Store.declared σ y = true) := by
+      rw [← R.decl, ← R.decl]; exact hd
+    simp only [StepOK, step, Store.step, hd, hd', if_false]
+    exact ⟨R, by first | rfl | trivial⟩
+
+theorem step_callAppend {s : State} {σ : List Tree} (R : Refines s σ) (y x : Nat) (a : Atom) :
+    StepOK s σ (.callAppend y x a) := by
+  by_cases hxy : x < s.cells.length ∧ y < s.cells.length
+  · obtain ⟨hx, hy⟩ := hxy
+    have hd : (declared s x = true ∧ declared s y = true) := by simp [declared, hx, hy]
+    have hd' : (Store.declared σ x = true ∧ Store.declared σ y = true) := by
+      rw [← R.decl, ← R.decl]; exact hd
+    obtain ⟨i1, e1, r1⟩ := evalAtom_spec (s := s) (T := []) (.var x) (by simpa using R.inv) R.sim
+    simp only [evalAtom, Store.evalAtom] at i1 e1 r1
+    have sim1 : All2 (Rep (dup s.h (cellOf s x))) s.cells σ := All2.mono (fun _ _ _ r => r.ext e1) R.sim
+    obtain ⟨i2, e2, r2⟩ := evalAtom_spec (s := s) (h := dup s.h (cellOf s x)) (T := [cellOf s x]) a (by simpa using i1) sim1
+    have sim2 : All2 (Rep (evalAtom s (dup s.h (cellOf s x)) a).1) s.cells σ := All2.mono (fun _ _ _ r => r.ext e2) sim1
+    simp only [StepOK, step, Store.step, hd, hd', and_self, if_true, readVar]
+    obtain ⟨tx, htx⟩ : ∃ tx, Store.get σ x = tx := ⟨_, rfl⟩
+    rw [htx] at r1
+    simp only [htx]
+    have A := appendOp_spec (F := s.cells) (i2.congr (fun k => by simp [occ_cons, occ_append]; omega))
+      (r1.ext e2) r2
+    obtain ⟨ap, hap⟩ : ∃ ap, appendOp (evalAtom s (dup s.h (cellOf s x)) a).1 (cellOf s x)
+      (evalAtom s (dup s.h (cellOf s x)) a).2 = ap := ⟨_, rfl⟩
+    simp only [hap] at A ⊢
+    cases tx with
+    | null =>
+      dsimp only at A ⊢
+      simp only [A.1]
+      exact ⟨⟨by simpa using A.2.inv, sim_stable (T := []) sim2 (by simpa using A.2.stable)⟩, by first | rfl | trivial⟩
+    | int n =>
+      dsimp only at A ⊢
+      simp only [A.1]
+      exact ⟨⟨by simpa using A.2.inv, sim_stable (T := []) sim2 (by simpa using A.2.stable)⟩, by first | rfl | trivial⟩
+    | list ts =>
+      dsimp only at A ⊢
+      obtain ⟨c, hc, trc, rc⟩ := A
+      simp only [hc]
+      have sim3 := sim_stable (T := []) sim2 (by simpa using trc.stable)
+      obtain ⟨i4, s4, _⟩ := writeCell_spec (T := []) hy (by simpa using trc.inv) sim3 rc
+      exact ⟨⟨by simpa using i4, s4⟩, by first | rfl | trivial⟩
+  · have hd : ¬ (declared s x = true ∧ declared s y = true) := by simpa [declared] using hxy
+    have hd' : ¬ (Store.declared σ x = true ∧ Store.declared σ y = true) := by
+      rw [← R.decl, ← R.decl]; exact hd
+    simp only [StepOK, step, Store.step, hd, hd', if_false]
+    exact ⟨R, by first | rfl | trivial⟩
+
 /-- every statement form -/
 theorem step_ok {s : State} {σ : List Tree} (R : Refines s σ) (st : Stmt) : StepOK s σ st := by
   cases st with
@@ -179,5 +258,7 @@ theorem step_ok {s : State} {σ : List Tree} (R : Refines s σ) (st : Stmt) : St
   | remove y x path i => exact step_remove R y x path i
   | consume y x path => exact step_consume R y x path
   | swap x px y py => exact step_swap R x px y py
+  | update y x i a => exact step_update R y x i a
+  | callAppend y x a => exact step_callAppend R y x a
 
 end Noulith.RcHeap
